@@ -1,6 +1,6 @@
 (* C03 — Every lint points into the text; every suggestion is a well-defined local edit.
    Pinned statements only. *)
-Require Import Base Suggestion ListLemmas SuggestionProofs SpanSchemas Tables_spanexprs SpanSites.
+Require Import Base Suggestion Rebase ListLemmas SuggestionProofs SpanSchemas Tables_spanexprs SpanSites.
 
 (* the edit primitive: total on spans inside the text *)
 Theorem C03_apply_total : forall s sp src, span_in (length src) sp -> is_ok (apply s sp src) = true.
@@ -78,6 +78,28 @@ Check C03_rebase_in_bounds : forall (sp : span) (a b a' b' : nat),
               send (push_by rel a') <= b' /\
               send (push_by rel a') - sstart (push_by rel a') = send sp - sstart sp.
 Print Assumptions C03_rebase_in_bounds.
+
+(* the executable cache re-basing that is run against LintGroup::lint (correspondence lines `B`):
+   lints inside their chunk are shifted by the difference of the chunk starts, nothing else ... *)
+Theorem C03_rebase_model_value : forall (a a' : nat) (ls : list (nat * nat)),
+  Forall (fun se => a <= fst se /\ fst se <= snd se) ls ->
+  run_rebase a a' ls = Some (map (fun se => (fst se - a + a', snd se - a + a')) ls).
+Proof. exact run_rebase_total. Qed.
+Check C03_rebase_model_value : forall (a a' : nat) (ls : list (nat * nat)),
+  Forall (fun se => a <= fst se /\ fst se <= snd se) ls ->
+  run_rebase a a' ls = Some (map (fun se => (fst se - a + a', snd se - a + a')) ls).
+Print Assumptions C03_rebase_model_value.
+
+(* ... and a lint that starts before its chunk makes pull_by underflow (debug panic) *)
+Theorem C03_rebase_model_rejects : forall (a a' s e : nat) (t : list (nat * nat)),
+  s < a -> run_rebase a a' ((s, e) :: t) = None.
+Proof. exact run_rebase_panics. Qed.
+Check C03_rebase_model_rejects : forall (a a' s e : nat) (t : list (nat * nat)),
+  s < a -> run_rebase a a' ((s, e) :: t) = None.
+Print Assumptions C03_rebase_model_rejects.
+
+Example C03_rebase_model_example : run_rebase 10 3 [(12, 15); (10, 10)] = Some [(5, 8); (3, 3)].
+Proof. vm_compute. reflexivity. Qed.
 
 (* span schemas used by the rules, under the token invariant of C02 *)
 Theorem C03_token_derived_in_bounds : forall n,
